@@ -603,15 +603,21 @@ func (p *provProfile) op() {
 		p.note("edit NodePool %s (non-drifting, what=%d)", name, what)
 	case 7: // drifting NodePool edit: template label / taint / annotation
 		name := p.pools[ch.Pick("prov.pool", len(p.pools))]
+		replace := ch.Pick("prov.replace", 3) == 2
 		st.Mutate(gvkNodePool, types.NamespacedName{Name: name}, func(o client.Object) {
 			np := o.(*v1.NodePool)
 			if np.Spec.Template.Annotations == nil {
 				np.Spec.Template.Annotations = map[string]string{}
 			}
 			np.Spec.Template.Annotations["example.com/rev"] = fmt.Sprint(p.s.step)
+			if replace {
+				// kubectl replace / a GitOps "replace" sync: the object comes back without the annotations Karpenter maintains
+				delete(np.Annotations, v1.NodePoolHashAnnotationKey)
+				delete(np.Annotations, v1.NodePoolHashVersionAnnotationKey)
+			}
 		})
 		p.driftEdit[name] = p.s.Now()
-		p.note("edit NodePool %s (drifting: template annotation)", name)
+		p.note("edit NodePool %s (drifting: template annotation, replaced wholesale=%v)", name, replace)
 	case 8: // user deletes a NodeClaim
 		l := st.List(gvkNodeClaim)
 		if len(l) > 0 {
@@ -1705,6 +1711,33 @@ func (p *provProfile) checkDrifted(nc *v1.NodeClaim, by *Task) {
 	s.Violate("C15", "self-inflicted-drift", "NodeClaim %s was created from the very template NodePool %s has now (hash annotation up to date), yet it was marked Drifted (%s: %s)", nc.Name, pool, c.Reason, c.Message)
 }
 
+// checkDriftReported: C15, positive clause, at the end of a run whose quiet tail completed: a launched NodeClaim that
+// was created from a template different from the one its NodePool has now is reported Drifted.
+func (p *provProfile) checkDriftReported() {
+	s := p.s
+	if !p.tailOK {
+		return
+	}
+	for _, o := range s.store.List(gvkNodeClaim) {
+		nc := o.(*v1.NodeClaim)
+		created, ok := p.ncTemplate[nc.Name]
+		if !ok || nc.Status.ProviderID == "" || nc.DeletionTimestamp != nil || !nc.StatusConditions().Get(v1.ConditionTypeLaunched).IsTrue() {
+			continue
+		}
+		npo := s.store.Get(gvkNodePool, types.NamespacedName{Name: nc.Labels[v1.NodePoolLabelKey]})
+		if npo == nil || npo.GetDeletionTimestamp() != nil {
+			continue
+		}
+		if created == templateJSON(npo.(*v1.NodePool)) {
+			continue
+		}
+		s.Probe("c15-stale-nodeclaim-at-end")
+		if !nc.StatusConditions().Get(v1.ConditionTypeDrifted).IsTrue() {
+			s.Violate("C15", "drift-not-reported", "NodeClaim %s was created from an older template of NodePool %s (a drift-relevant field differs) and is still not reported Drifted long after faults stopped (hash annotation of the NodeClaim %q, of the NodePool %q)", nc.Name, npo.GetName(), nc.Annotations[v1.NodePoolHashAnnotationKey], npo.GetAnnotations()[v1.NodePoolHashAnnotationKey])
+		}
+	}
+}
+
 // lastNodePoolRead: the NodePool version a task last read (from a list if list is set, else from any read).
 func lastNodePoolRead(t *Task, pool string, list bool) *v1.NodePool {
 	if t == nil {
@@ -1731,6 +1764,7 @@ func templateJSON(np *v1.NodePool) string {
 
 func (p *provProfile) finalChecks() {
 	p.checkLimits("end of run")
+	p.checkDriftReported()
 	if p.disrupt {
 		p.disruptFinal()
 	}
